@@ -3,6 +3,7 @@
 set -e
 cd /verif
 python3 tools/gen_consts.py
+cd /verif/translator && CARGO_NET_OFFLINE=true cargo build --offline && ./target/debug/translator --repo /repo --out /verif/lean/RenetVerif/Generated/Src.lean
 cd /verif/lean && lake build RenetVerif driver
 cd /verif/harness && CARGO_NET_OFFLINE=true cargo build --offline
 echo setup-ok
